@@ -131,10 +131,11 @@ def c11_cases(chk, quick):
             c["hasher"] = "ident"          # a true identity hasher: hashes are neighbouring small integers
             c["elems"] = "small" if i % 8 == 3 else "sentinel"   # ... or the extreme 64-bit values (0, 2^64-1, 2^63, ...)
     # sketch sizes beyond one byte (and, thorough, beyond two bytes) on a few random sequences
+    # (the recorded tables grow with m x pairs: the largest sizes get short sequences over 3 symbols)
     for mm in ([300, 1000] if quick else [257, 300, 1000, 5000, 70000]):
-        for _ in range(2):
-            n = rnd.randint(20, 60)
-            seq = [rnd.randint(1, 12) for _ in range(n)]
+        for _ in range(2 if mm <= 1000 else 1):
+            n = rnd.randint(20, 60) if mm <= 1000 else rnd.randint(5, 8)
+            seq = [rnd.randint(1, 12 if mm <= 1000 else 3) for _ in range(n)]
             s2 = list(seq)
             rnd.shuffle(s2)
             cases.append(dict(m=mm, l=rnd.choice([1, 2]), seqs=[seq, s2, list(reversed(seq))]))
